@@ -384,7 +384,8 @@ impl Sys {
             json!({
                 "id": r.id,
                 "ct": ct_name(wd, &r.context_type),
-                "vu": r.valid_until.map(|x| x as i64).unwrap_or(-1),
+                // (u32::MAX, the "never expires" idiom, is logged as i32::MAX: trace numbers are 32-bit)
+                "vu": r.valid_until.map(|x| if x == u32::MAX { i32::MAX as i64 } else { x as i64 }).unwrap_or(-1),
                 "name": sstr_to_string(&r.name),
                 "signers": signer_names(wd, &r.signers),
                 "pols": r.policies.iter().map(|p| rev(&wd.pols, &p)).collect::<Vec<_>>(),
@@ -490,7 +491,7 @@ impl Sys {
                     "add_rule" => {
                         let ct = self.ctype(st(op, "ct"));
                         let name = SStr::from_str(&e, st(op, "name"));
-                        let vu = if num(op, "vu") < 0 { None } else { Some(num(op, "vu") as u32) };
+                        let vu = if num(op, "vu") < 0 { None } else if num(op, "vu") == i32::MAX as i64 { Some(u32::MAX) } else { Some(num(op, "vu") as u32) };
                         let signers = self.signers(&arr(op, "signers"));
                         let pols = self.policies(&arr(op, "pols"));
                         own("add_context_rule", args(&e, (ct.clone(), name.clone(), vu, signers.clone(), pols.clone())));
@@ -510,7 +511,7 @@ impl Sys {
                         res_of(&cl.try_update_context_rule_name(&id, &name))
                     }
                     "upd_vu" => {
-                        let vu = if num(op, "vu") < 0 { None } else { Some(num(op, "vu") as u32) };
+                        let vu = if num(op, "vu") < 0 { None } else if num(op, "vu") == i32::MAX as i64 { Some(u32::MAX) } else { Some(num(op, "vu") as u32) };
                         own("update_context_rule_valid_until", args(&e, (id, vu)));
                         res_of(&cl.try_update_context_rule_valid_until(&id, &vu))
                     }
@@ -703,7 +704,7 @@ fn drive_run(t: &mut Trace, d: &mut Drv, run: usize, len: usize) {
                 d.r.gen_range(0..sys.probe as i64 + 1)
             }
         };
-        let vus = [-1i64, -1, now + dt - 1, now + dt, now + dt + 1, now + dt + 2, now + dt + 5];
+        let vus = [-1i64, -1, now + dt - 1, now + dt, now + dt + 1, now + dt + 2, now + dt + 5, i32::MAX as i64, i32::MAX as i64 - 1];
         // capacity flavours: push towards the limits first
         let kind = match flavour {
             5 if i < 22 => "add_rule",
